@@ -645,7 +645,24 @@ func (env *LEnv) update(k, v *LVal) *LVal {
 			return Nil()
 		}
 		if env.parent == nil {
-			lerr := env.Runtime.Package.Update(k, v)
+			// A package-qualified symbol names a binding of that package,
+			// for set! as for evaluation and for set.
+			target, key := env.Runtime.Package, k
+			pieces := SplitSymbol(k)
+			if pieces.Type == LError {
+				if err := env.ErrorAssociate(pieces); err != nil {
+					return err
+				}
+				return pieces
+			}
+			if pieces.Len() == 2 && pieces.Cells[0].Str != "" {
+				pkg := env.Runtime.Registry.packages[pieces.Cells[0].Str]
+				if pkg == nil {
+					return env.Errorf("unknown package: %q", pieces.Cells[0].Str)
+				}
+				target, key = pkg, pieces.Cells[1]
+			}
+			lerr := target.Update(key, v)
 			if lerr.Type == LError {
 				if err := env.ErrorAssociate(lerr); err != nil {
 					return err
